@@ -7,21 +7,28 @@ package avro
 
 //@ global errOverflow != nil
 
+// well-formed read buffer: cursor inside the buffer
+//@ spec wfRB(r ptr) bool = r != nil && 0 <= r.i && r.i <= len(r.buf)
+// ... with a resource bank whose string store is a different object from the input buffer
+//@ spec wfRBS(r ptr) bool = wfRB(r) && r.rb != nil && (base(r.rb.sData) != base(r.buf) || len(r.buf) == 0)
+
 // ---------------------------------------------------------------- buffer.go: ReadBuf
 
 //@ func (*ReadBuf).ReadByte
 //@   let i0 := d.i
-//@   requires d != nil && 0 <= d.i && d.i <= len(d.buf)
+//@   requires wfRB(d)
 //@   ensures [C06,C17] i0 <  len(d.buf) ==> err == nil && res == d.buf[i0] && d.i == i0+1
 //@   ensures [C06,C17] i0 >= len(d.buf) ==> err != nil && d.i == i0
 //@   modifies d.i
 
 //@ func (*ReadBuf).uvarint
 //@   let i0 := d.i, n := len(d.buf)
-//@   requires d != nil && 0 <= d.i && d.i <= len(d.buf)
+//@   requires wfRB(d)
 //@   ensures [C17,C06] i0 <= d.i && d.i <= n
 //@   ensures [C17] err == nil ==> uvOK(d.buf, i0, d.i) && res == pv(d.buf, i0, d.i - i0)
 //@   ensures [C17] err != nil ==> uvBad(d.buf, i0, d.i, n)
+//@   ensures [C04,C17] err == nil ==> d.i == vend(d.buf, i0)
+//@   uses vend_def(d.buf, i0, d.i)
 //@   modifies d.i
 //@   loop 1 invariant 0 <= i && i <= n - i0 && d.i == i0 + i
 //@   loop 1 invariant forall k int :: i0 <= k && k < i0 + i ==> d.buf[k] >= 0x80
@@ -30,23 +37,24 @@ package avro
 
 //@ func (*ReadBuf).Varint
 //@   let i0 := d.i, n := len(d.buf)
-//@   requires d != nil && 0 <= d.i && d.i <= len(d.buf)
+//@   requires wfRB(d)
 //@   ensures [C17,C06] i0 <= d.i && d.i <= n
 //@   ensures [C17] err == nil ==> uvOK(d.buf, i0, d.i) && res == unzz(pv(d.buf, i0, d.i - i0))
 //@   ensures [C17] err != nil ==> uvBad(d.buf, i0, d.i, n)
+//@   ensures [C04,C17] err == nil ==> d.i == vend(d.buf, i0) && res == vval(d.buf, i0)
 //@   modifies d.i
 
 //@ func (*ReadBuf).Next
 //@   let i0 := d.i, n := len(d.buf)
-//@   requires d != nil && 0 <= d.i && d.i <= len(d.buf)
+//@   requires wfRB(d)
 //@   ensures [C06,C04,C17] (0 <= l && l <= n - i0) <==> err == nil
 //@   ensures [C06,C04,C17] err == nil ==> d.i == i0 + l && len(res) == l && base(res) == base(d.buf) && off(res) == off(d.buf) + i0
-//@   ensures [C06,C04] err != nil ==> d.i == i0
+//@   ensures [C06,C04] err != nil ==> d.i == i0 && len(res) == 0
 //@   modifies d.i
 
 //@ func skip
 //@   let i0 := r.i, n := len(r.buf)
-//@   requires r != nil && 0 <= r.i && r.i <= len(r.buf)
+//@   requires wfRB(r)
 //@   ensures [C06,C04] (0 <= l && l <= n - i0) <==> err == nil
 //@   ensures [C06,C04] err == nil ==> r.i == i0 + l
 //@   ensures [C06,C04] err != nil ==> r.i == i0
@@ -60,6 +68,7 @@ package avro
 //@   ensures [C17,C02,C13] len(w.buf) == len(b0) + uvlen(zz(v))
 //@   ensures [C17,C02,C13] forall k int :: 0 <= k && k < len(b0) ==> w.buf[k] == old(b0[k])
 //@   ensures [C17,C02,C13] forall j int :: 0 <= j && j < uvlen(zz(v)) ==> w.buf[len(b0)+j] == uvbyte(zz(v), j)
+//@   ensures base(w.buf) == old(base(w.buf)) || newobj(w.buf)
 //@   modifies w.buf, BH[w.buf]
 //@   emits V(v)
 
@@ -68,6 +77,7 @@ package avro
 //@   requires w != nil
 //@   ensures [C17,C02,C13] len(w.buf) == len(b0) + 1 && w.buf[len(b0)] == val
 //@   ensures [C17,C02,C13] forall k int :: 0 <= k && k < len(b0) ==> w.buf[k] == old(b0[k])
+//@   ensures base(w.buf) == old(base(w.buf)) || newobj(w.buf)
 //@   modifies w.buf, BH[w.buf]
 //@   emits B(val)
 
@@ -77,5 +87,212 @@ package avro
 //@   ensures [C17,C02,C13] len(w.buf) == len(b0) + len(val)
 //@   ensures [C17,C02,C13] forall k int :: 0 <= k && k < len(b0) ==> w.buf[k] == old(b0[k])
 //@   ensures [C17,C02,C13] forall j int :: 0 <= j && j < len(val) ==> w.buf[len(b0)+j] == old(val[j])
+//@   ensures base(w.buf) == old(base(w.buf)) || newobj(w.buf)
 //@   modifies w.buf, BH[w.buf]
 //@   emits W(len(val))
+
+// ---------------------------------------------------------------- int.go
+
+//@ func (IntCodec[T]).Read for T in int16,int32,int64
+//@   let i0 := r.i, n := len(r.buf)
+//@   requires wfRB(r) && p != nil && rawalloc(p, sizeof(T))
+//@   ensures [C17,C06,C04] i0 <= r.i && r.i <= n
+//@   ensures [C17,C03,C04] err == nil ==> uvOK(r.buf, i0, r.i)
+//@   ensures [C17,C03] err == nil ==> fits(unzz(pv(r.buf, i0, r.i - i0)), sizeof(T)) && memint(p, sizeof(T)) == unzz(pv(r.buf, i0, r.i - i0))
+//@   ensures [C17,C03] err != nil ==> uvBad(r.buf, i0, r.i, n) || (uvOK(r.buf, i0, r.i) && !fits(unzz(pv(r.buf, i0, r.i - i0)), sizeof(T)))
+//@   modifies r.i, M[p, sizeof(T)]
+
+//@ func (IntCodec[T]).Skip for T in int16,int32,int64
+//@   let i0 := r.i, n := len(r.buf)
+//@   requires wfRB(r)
+//@   ensures [C04,C06] i0 <= r.i && r.i <= n
+//@   ensures [C04] err == nil ==> uvOK(r.buf, i0, r.i)
+//@   ensures [C04] err != nil ==> uvBad(r.buf, i0, r.i, n)
+//@   modifies r.i
+
+//@ func (IntCodec[T]).Write for T in int16,int32,int64
+//@   let b0 := w.buf, v := memint(p, sizeof(T))
+//@   requires w != nil && p != nil
+//@   ensures [C17,C13,C02] len(w.buf) == len(b0) + uvlen(zz(v))
+//@   ensures [C17,C13,C02] forall k int :: 0 <= k && k < len(b0) ==> w.buf[k] == old(b0[k])
+//@   ensures [C17,C13,C02] forall j int :: 0 <= j && j < uvlen(zz(v)) ==> w.buf[len(b0)+j] == uvbyte(zz(v), j)
+//@   ensures [C13,C02] tlen() == 1 && tkind(0) == evV && ta(0) == uint64(v)
+//@   modifies w.buf, BH[w.buf]
+//@   emits V(v)
+
+// ---------------------------------------------------------------- fixed.go
+
+//@ func (fixedCodec).Read
+//@   let i0 := r.i, n := len(r.buf)
+//@   requires wfRB(r) && f.Size >= 0 && (f.Size > 0 ==> p != nil) && rawalloc(p, f.Size)
+//@   ensures [C17,C06,C04,C03] (f.Size <= n - i0) <==> err == nil
+//@   ensures [C17,C04,C03] err == nil ==> r.i == i0 + f.Size
+//@   ensures [C17,C03] err == nil ==> forall k int :: 0 <= k && k < f.Size ==> mem8(uintptr(p) + uintptr(k)) == r.buf[i0+k]
+//@   ensures [C06,C05] err != nil ==> r.i == i0 && forall k int :: 0 <= k && k < f.Size ==> mem8(uintptr(p) + uintptr(k)) == old(mem8(uintptr(p) + uintptr(k)))
+//@   modifies r.i, M[p, f.Size]
+
+//@ func (fixedCodec).Skip
+//@   let i0 := r.i, n := len(r.buf)
+//@   requires wfRB(r) && f.Size >= 0
+//@   ensures [C04,C06] (f.Size <= n - i0) <==> err == nil
+//@   ensures [C04] err == nil ==> r.i == i0 + f.Size
+//@   ensures [C04,C06] err != nil ==> r.i == i0
+//@   modifies r.i
+
+//@ func (fixedCodec).Write
+//@   let b0 := w.buf
+//@   requires w != nil && rc.Size >= 0 && (rc.Size > 0 ==> p != nil)
+//@   ensures [C17,C13,C02] len(w.buf) == len(b0) + rc.Size
+//@   ensures [C17,C13,C02] forall k int :: 0 <= k && k < len(b0) ==> w.buf[k] == old(b0[k])
+//@   ensures [C17,C13,C02] forall j int :: 0 <= j && j < rc.Size ==> w.buf[len(b0)+j] == mem8(uintptr(p) + uintptr(j))
+//@   ensures [C13,C02] tlen() == 1 && tkind(0) == evW && ta(0) == uint64(rc.Size)
+//@   modifies w.buf, BH[w.buf]
+//@   emits W(rc.Size)
+
+// ---------------------------------------------------------------- float.go
+
+//@ func (floatCodec[T]).Read for T in float32,float64
+//@   let i0 := r.i, n := len(r.buf)
+//@   requires wfRB(r) && p != nil && rawalloc(p, sizeof(T))
+//@   ensures [C17,C06,C04,C03] (sizeof(T) <= n - i0) <==> err == nil
+//@   ensures [C17,C04,C03] err == nil ==> r.i == i0 + sizeof(T) && memuint(p, sizeof(T)) == lebytes(r.buf, i0, sizeof(T))
+//@   ensures [C06,C05] err != nil ==> r.i == i0 && memuint(p, sizeof(T)) == old(memuint(p, sizeof(T)))
+//@   modifies r.i, M[p, sizeof(T)]
+
+//@ func (floatCodec[T]).Skip for T in float32,float64
+//@   let i0 := r.i, n := len(r.buf)
+//@   requires wfRB(r)
+//@   ensures [C04,C06] (sizeof(T) <= n - i0) <==> err == nil
+//@   ensures [C04] err == nil ==> r.i == i0 + sizeof(T)
+//@   ensures [C04,C06] err != nil ==> r.i == i0
+//@   modifies r.i
+
+//@ func (floatCodec[T]).Write for T in float32,float64
+//@   let b0 := w.buf
+//@   requires w != nil && p != nil
+//@   ensures [C17,C13,C02] len(w.buf) == len(b0) + sizeof(T)
+//@   ensures [C17,C13,C02] forall k int :: 0 <= k && k < len(b0) ==> w.buf[k] == old(b0[k])
+//@   ensures [C17,C13,C02] lebytes(w.buf, len(b0), sizeof(T)) == memuint(p, sizeof(T))
+//@   ensures [C13,C02] tlen() == 1 && tkind(0) == evW && ta(0) == sizeof(T)
+//@   modifies w.buf, BH[w.buf]
+//@   emits W(sizeof(T))
+
+//@ func (Float32DoubleCodec).Read
+//@   let i0 := r.i, n := len(r.buf)
+//@   requires wfRB(r) && p != nil && rawalloc(p, 4)
+//@   ensures [C17,C06,C04,C03] (8 <= n - i0) <==> err == nil
+//@   ensures [C17,C04,C03] err == nil ==> r.i == i0 + 8
+//@   ensures [C17,C03] err == nil && !isnan(le64(r.buf, i0)) ==> uint32(memuint(p, 4)) == to32(le64(r.buf, i0))
+//@   ensures [C17,C03] err == nil && isnan(le64(r.buf, i0)) ==> isnan(uint32(memuint(p, 4)))
+//@   ensures [C06,C05] err != nil ==> r.i == i0 && memuint(p, 4) == old(memuint(p, 4))
+//@   modifies r.i, M[p, 4]
+
+//@ func (Float32DoubleCodec).Write
+//@   let b0 := w.buf, x := uint32(memuint(p, 4))
+//@   requires w != nil && p != nil && rawalloc(p, 4)
+//@   ensures [C17,C13,C02] len(w.buf) == len(b0) + 8
+//@   ensures [C17,C13,C02] forall k int :: 0 <= k && k < len(b0) ==> w.buf[k] == old(b0[k])
+//@   ensures [C17,C13,C02] !isnan(x) ==> le64(w.buf, len(b0)) == to64(x)
+//@   ensures [C17,C13,C02] isnan(x) ==> isnan(le64(w.buf, len(b0)))
+//@   modifies w.buf, BH[w.buf]
+
+// ---------------------------------------------------------------- bool.go
+
+//@ func (BoolCodec).Read
+//@   let i0 := r.i, n := len(r.buf)
+//@   requires wfRB(r) && p != nil && rawalloc(p, 1)
+//@   ensures [C17,C06,C04,C03] (1 <= n - i0) <==> err == nil
+//@   ensures [C17,C04,C03] err == nil ==> r.i == i0 + 1 && mem8(p) == (r.buf[i0] != 0 ? 1 : 0)
+//@   ensures [C06,C05] err != nil ==> r.i == i0 && mem8(p) == old(mem8(p))
+//@   modifies r.i, M[p, 1]
+
+//@ func (BoolCodec).Skip
+//@   let i0 := r.i, n := len(r.buf)
+//@   requires wfRB(r)
+//@   ensures [C04,C06] (1 <= n - i0) <==> err == nil
+//@   ensures [C04] err == nil ==> r.i == i0 + 1
+//@   ensures [C04,C06] err != nil ==> r.i == i0
+//@   modifies r.i
+
+//@ func (BoolCodec).Write
+//@   let b0 := w.buf
+//@   requires w != nil && p != nil
+//@   ensures [C17,C13,C02] len(w.buf) == len(b0) + 1 && w.buf[len(b0)] == (mem8(p) != 0 ? 1 : 0)
+//@   ensures [C17,C13,C02] forall k int :: 0 <= k && k < len(b0) ==> w.buf[k] == old(b0[k])
+//@   ensures [C13,C02] tlen() == 1 && tkind(0) == evB
+//@   modifies w.buf, BH[w.buf]
+//@   emits B(mem8(p) != 0 ? 1 : 0)
+
+// ---------------------------------------------------------------- buffer.go: string bank (functional part; C10 adds the bank invariant)
+
+//@ func (*ResourceBank).ToString
+//@   requires rb != nil
+//@   ensures [C03,C10,C17] len(res) == len(in) && forall k int :: 0 <= k && k < len(in) ==> res[k] == old(in[k])
+//@   ensures [C10] base(res) == base(rb.sData) && (base(rb.sData) == old(base(rb.sData)) || newobj(rb.sData))
+//@   modifies rb.sData, BH[rb.sData]
+
+//@ func (*ReadBuf).NextAsString
+//@   let i0 := d.i, n := len(d.buf)
+//@   requires wfRBS(d)
+//@   ensures [C06,C04,C03] (0 <= l && l <= n - i0) <==> err == nil
+//@   ensures [C06,C04,C03] err == nil ==> d.i == i0 + l && len(res) == l && forall k int :: 0 <= k && k < l ==> res[k] == old(d.buf[i0+k])
+//@   ensures [C10] err == nil ==> base(res) == base(d.rb.sData) && (base(d.rb.sData) == old(base(d.rb.sData)) || newobj(d.rb.sData))
+//@   ensures [C06,C04] err != nil ==> d.i == i0 && len(res) == 0
+//@   modifies d.i, d.rb.sData, BH[d.rb.sData]
+
+// ---------------------------------------------------------------- bytes.go, string.go
+
+// the length prefix at b[i0..e) is a well-formed varint; lenOf is its (signed) value
+//@ spec lenAt(b bytes, i0 int, e int) int64 = unzz(pv(b, i0, e - i0))
+
+//@ func (BytesCodec).Read
+//@   let i0 := r.i, n := len(r.buf), e := vend(r.buf, r.i), l := vval(r.buf, r.i)
+//@   requires wfRB(r) && ptr != nil && rawalloc(ptr, 24)
+//@   ensures [C06,C04,C03] i0 <= r.i && r.i <= n
+//@   ensures [C04,C03] err == nil ==> uvOK(r.buf, i0, e) && l >= 0 && r.i == e + int(l)
+//@   ensures [C03] err == nil && l > 0 ==> len(membytes(ptr)) == int(l) && (forall k int :: 0 <= k && k < int(l) ==> membytes(ptr)[k] == r.buf[e+k])
+//@   ensures [C10] err == nil ==> base(membytes(ptr)) == old(base(membytes(ptr))) || newobj(membytes(ptr))
+//@   modifies r.i, M[ptr, 24], BH
+
+//@ func (BytesCodec).Skip
+//@   let i0 := r.i, n := len(r.buf), e := vend(r.buf, r.i), l := vval(r.buf, r.i)
+//@   requires wfRB(r)
+//@   ensures [C06,C04] i0 <= r.i && r.i <= n
+//@   ensures [C04] err == nil ==> uvOK(r.buf, i0, e) && l >= 0 && r.i == e + int(l)
+//@   modifies r.i
+
+//@ func (BytesCodec).Write
+//@   let b0 := w.buf, s := membytes(p)
+//@   requires w != nil && p != nil && rawalloc(p, 24) && 0 <= len(s) && len(s) < 1<<40 && (len(s) == 0 || (allocated(s) && base(s) != base(w.buf)))
+//@   ensures [C13,C02,C17] len(w.buf) == len(b0) + uvlen(zz(int64(len(s)))) + len(s)
+//@   ensures [C13,C02,C17] forall k int :: 0 <= k && k < len(b0) ==> w.buf[k] == old(b0[k])
+//@   ensures [C13,C02,C17] forall j int :: 0 <= j && j < uvlen(zz(int64(len(s)))) ==> w.buf[len(b0)+j] == uvbyte(zz(int64(len(s))), j)
+//@   ensures [C13,C02,C17] forall j int :: 0 <= j && j < len(s) ==> w.buf[len(b0)+uvlen(zz(int64(len(s))))+j] == old(s[j])
+//@   ensures [C13,C02] tlen() == 2 && tkind(0) == evV && ta(0) == uint64(len(s)) && tkind(1) == evW && ta(1) == uint64(len(s))
+//@   modifies w.buf, BH[w.buf]
+
+//@ func (StringCodec).Read
+//@   let i0 := r.i, n := len(r.buf), e := vend(r.buf, r.i), l := vval(r.buf, r.i)
+//@   requires wfRBS(r) && ptr != nil && rawalloc(ptr, 16)
+//@   ensures [C06,C04,C03] i0 <= r.i && r.i <= n
+//@   ensures [C04,C03] err == nil ==> uvOK(r.buf, i0, e) && l >= 0 && r.i == e + int(l)
+//@   ensures [C03] err == nil ==> len(memstr(ptr)) == int(l) && (forall k int :: 0 <= k && k < int(l) ==> memstr(ptr)[k] == r.buf[e+k])
+//@   ensures [C10] err == nil ==> base(memstr(ptr)) == base(r.rb.sData) && (base(r.rb.sData) == old(base(r.rb.sData)) || newobj(r.rb.sData))
+//@   modifies r.i, M[ptr, 16], r.rb.sData, BH[r.rb.sData]
+
+//@ func (StringCodec).Skip
+//@   let i0 := r.i, n := len(r.buf), e := vend(r.buf, r.i), l := vval(r.buf, r.i)
+//@   requires wfRB(r)
+//@   ensures [C06,C04] i0 <= r.i && r.i <= n
+//@   ensures [C04] err == nil ==> uvOK(r.buf, i0, e) && l >= 0 && r.i == e + int(l)
+//@   modifies r.i
+
+//@ func (StringCodec).Write
+//@   let b0 := w.buf, s := memstr(p)
+//@   requires w != nil && p != nil && rawalloc(p, 16) && 0 <= len(s) && len(s) < 1<<40 && (len(s) == 0 || (allocated(s) && base(s) != base(w.buf)))
+//@   ensures [C13,C02,C17] len(w.buf) == len(b0) + uvlen(zz(int64(len(s)))) + len(s)
+//@   ensures [C13,C02,C17] forall k int :: 0 <= k && k < len(b0) ==> w.buf[k] == old(b0[k])
+//@   ensures [C13,C02,C17] forall j int :: 0 <= j && j < uvlen(zz(int64(len(s)))) ==> w.buf[len(b0)+j] == uvbyte(zz(int64(len(s))), j)
+//@   ensures [C13,C02,C17] forall j int :: 0 <= j && j < len(s) ==> w.buf[len(b0)+uvlen(zz(int64(len(s))))+j] == old(s[j])
+//@   ensures [C13,C02] tlen() == 2 && tkind(0) == evV && ta(0) == uint64(len(s)) && tkind(1) == evW && ta(1) == uint64(len(s))
+//@   modifies w.buf, BH[w.buf]
